@@ -254,8 +254,12 @@ pub fn filter_vector(specs: &[FeatureSpec], l: &Value) -> Value {
     // every scenario carries its id as a tag; with `dup` some scenarios of one
     // feature / rule share their displayed name, as the rows of an outline do
     let dup = v["dup"] == true;
+    // (only with `dup`: otherwise scenarios keep exactly their own tags - some
+    // have none at all - and are identified by their unique names)
     let mark = |s: &mut gherkin::Scenario| {
-        s.tags.push(format!("id_{}", s.name));
+        if dup {
+            s.tags.push(format!("id_{}", s.name));
+        }
         if dup {
             match s.name.as_str() {
                 "S2" => s.name = "S1".into(),
@@ -307,10 +311,12 @@ pub fn filter_vector(specs: &[FeatureSpec], l: &Value) -> Value {
         move |_: &gherkin::Feature,
               _: Option<&gherkin::Rule>,
               s: &gherkin::Scenario| {
-            s.tags
+            let id = s
+                .tags
                 .iter()
                 .find_map(|t| t.strip_prefix("id_"))
-                .is_some_and(|id| closure_set.iter().any(|c| c == id))
+                .unwrap_or(&s.name);
+            closure_set.iter().any(|c| c == id)
         },
     ));
     // The same vector once more through `runner::Basic`, as an application
@@ -358,10 +364,12 @@ pub fn filter_vector(specs: &[FeatureSpec], l: &Value) -> Value {
             move |_: &gherkin::Feature,
                   _: Option<&gherkin::Rule>,
                   s: &gherkin::Scenario| {
-                s.tags
+                let id = s
+                    .tags
                     .iter()
                     .find_map(|t| t.strip_prefix("id_"))
-                    .is_some_and(|id| closure_set.iter().any(|c| c == id))
+                    .unwrap_or(&s.name);
+                closure_set.iter().any(|c| c == id)
             },
         ));
         let mut ids: Vec<String> = wlog
